@@ -37,6 +37,11 @@ func init() {
 		ruleL1(c, "C11.V20")
 		// a directory scan that does not advance on some path never ends, holding the directory's lock
 		ruleP2(c, "C11.V21")
+		// a reply that cannot be encoded is never sent: the client waits for ever
+		ruleXdrBounds(c, "C11.V22", "res")
+		// an inode that still has names is not freed: a directory entry (or "..") naming a free inode makes the
+		// scanners hand a nil inode on, and LOOKUP of ".." retry for ever
+		ruleG2(c, "C11.V23")
 	}
 }
 
@@ -900,6 +905,22 @@ func ruleV7(c *Ctx, id string) {
 		keys = append(keys, k)
 	}
 	sort.Strings(keys)
+	// and the predicate means what its callers take it to mean: folded with its argument bound to a constant, it
+	// answers true for "." and for "..", and false for an ordinary name
+	if ill := c.fn(id, "dir.IllegalName"); ill != nil && len(ill.Params) == 1 {
+		for _, tc := range []struct {
+			arg  string
+			want bool
+		}{{".", true}, {"..", true}, {"a", false}} {
+			got, ok := evalStringPred(ill, tc.arg)
+			key := fmt.Sprintf("dir.IllegalName|answers %v for %q", tc.want, tc.arg)
+			if !ok {
+				R.Undecided(id, key, P.Pos(ill.Pos()), "IllegalName is a closed predicate on its argument (string comparisons with constants)", "could not be folded")
+				continue
+			}
+			R.Check(got == tc.want, id, key, P.Pos(ill.Pos()), fmt.Sprintf("IllegalName(%q) == %v", tc.arg, tc.want), "folded", fmt.Sprintf("IllegalName(%q) answers %v: the callers' checks let \".\" / \"..\" through to the directory update (REMOVE of \".\" unlinks a directory from itself, RENAME onto \".\" waits for its own lock), or refuse ordinary names", tc.arg, got))
+		}
+	}
 	for _, k := range keys {
 		a := res[k]
 		R.Check(!a.bad, id, k, a.pos, "the name is rejected when it is \".\" or \"..\" before it is removed/added", "IllegalName(name)==false holds on every explored path to this call", "\".\" / \"..\" can reach the directory update (entries "+strings.Join(a.entry, ",")+"): RENAME x -> \".\" asks for its own directory's lock twice and blocks for ever; REMOVE \".\" unlinks a directory from itself")
@@ -1513,4 +1534,145 @@ func freeVarFieldPath(v ssa.Value) (*ssa.FreeVar, string, bool) {
 		break
 	}
 	return nil, "", false
+}
+
+// evalStringPred folds a function of one string-typed parameter that only
+// compares it (==, !=) with string constants, takes its length, and branches:
+// the SSA is executed with the parameter bound to arg.
+func evalStringPred(fn *ssa.Function, arg string) (bool, bool) {
+	if fn == nil || len(fn.Blocks) == 0 {
+		return false, false
+	}
+	type val struct {
+		s   string
+		b   bool
+		n   int64
+		typ byte // 's', 'b', 'n'
+	}
+	env := map[ssa.Value]val{fn.Params[0]: {s: arg, typ: 's'}}
+	var get func(v ssa.Value) (val, bool)
+	get = func(v ssa.Value) (val, bool) {
+		if x, ok := env[v]; ok {
+			return x, true
+		}
+		switch x := v.(type) {
+		case *ssa.Const:
+			if x.Value == nil {
+				return val{}, false
+			}
+			switch x.Value.Kind() {
+			case constant.String:
+				return val{s: constant.StringVal(x.Value), typ: 's'}, true
+			case constant.Bool:
+				return val{b: constant.BoolVal(x.Value), typ: 'b'}, true
+			case constant.Int:
+				n, _ := constant.Int64Val(x.Value)
+				return val{n: n, typ: 'n'}, true
+			}
+		case *ssa.ChangeType:
+			return get(x.X)
+		case *ssa.Convert:
+			return get(x.X)
+		}
+		return val{}, false
+	}
+	var prev *ssa.BasicBlock
+	b := fn.Blocks[0]
+	for steps := 0; steps < 200; steps++ {
+		for _, in := range b.Instrs {
+			switch x := in.(type) {
+			case *ssa.Phi:
+				for i, p := range b.Preds {
+					if p == prev {
+						if v, ok := get(x.Edges[i]); ok {
+							env[x] = v
+						} else {
+							return false, false
+						}
+					}
+				}
+			case *ssa.BinOp:
+				l, ok1 := get(x.X)
+				r, ok2 := get(x.Y)
+				if !ok1 || !ok2 || l.typ != r.typ {
+					return false, false
+				}
+				var res bool
+				switch {
+				case l.typ == 's' && x.Op == token.EQL:
+					res = l.s == r.s
+				case l.typ == 's' && x.Op == token.NEQ:
+					res = l.s != r.s
+				case l.typ == 'b' && x.Op == token.EQL:
+					res = l.b == r.b
+				case l.typ == 'b' && x.Op == token.NEQ:
+					res = l.b != r.b
+				case l.typ == 'n':
+					switch x.Op {
+					case token.EQL:
+						res = l.n == r.n
+					case token.NEQ:
+						res = l.n != r.n
+					case token.LSS:
+						res = l.n < r.n
+					case token.LEQ:
+						res = l.n <= r.n
+					case token.GTR:
+						res = l.n > r.n
+					case token.GEQ:
+						res = l.n >= r.n
+					default:
+						return false, false
+					}
+				default:
+					return false, false
+				}
+				env[x] = val{b: res, typ: 'b'}
+			case *ssa.UnOp:
+				if x.Op != token.NOT {
+					return false, false
+				}
+				v, ok := get(x.X)
+				if !ok || v.typ != 'b' {
+					return false, false
+				}
+				env[x] = val{b: !v.b, typ: 'b'}
+			case *ssa.Call:
+				bi, isB := x.Call.Value.(*ssa.Builtin)
+				if !isB || bi.Name() != "len" || len(x.Call.Args) != 1 {
+					return false, false
+				}
+				v, ok := get(x.Call.Args[0])
+				if !ok || v.typ != 's' {
+					return false, false
+				}
+				env[x] = val{n: int64(len(v.s)), typ: 'n'}
+			case *ssa.ChangeType, *ssa.Convert, *ssa.DebugRef:
+				// looked through by get
+			case *ssa.If:
+				v, ok := get(x.Cond)
+				if !ok || v.typ != 'b' {
+					return false, false
+				}
+				prev = b
+				if v.b {
+					b = b.Succs[0]
+				} else {
+					b = b.Succs[1]
+				}
+			case *ssa.Jump:
+				prev = b
+				b = b.Succs[0]
+			case *ssa.Return:
+				if len(x.Results) != 1 {
+					return false, false
+				}
+				v, ok := get(x.Results[0])
+				return v.b, ok && v.typ == 'b'
+			default:
+				return false, false
+			}
+		}
+	}
+	return false, false
 }
